@@ -1,0 +1,20 @@
+//go:build verif
+// +build verif
+
+package HolidayUtil
+
+// Contracts for the verification machinery in /verif (comment-only file; compiled only with -tags verif).
+
+//@ # The holiday record set seen through the by-day lookup: recorded(y,m,d) - the data has a record for that day;
+//@ # makeup(y,m,d) - the record marks a make-up working day. The lookup itself (a scan of the packed data string) is
+//@ # outside the verified subset; its agreement with the by-month / by-year / by-target views is checked exhaustively
+//@ # by the bounded stand-in holiday_views.
+//@ uninterp spec func recorded(y int, m int, d int) bool
+//@   = GetHolidayByYmd(y, m, d) != nil
+//@ uninterp spec func makeup(y int, m int, d int) bool
+//@   = GetHolidayByYmd(y, m, d) != nil && GetHolidayByYmd(y, m, d).IsWork()
+
+//@ func GetHolidayByYmd(year int, month int, day int) *Holiday [C14]
+//@   trusted
+//@   ensures (result == nil) == !recorded(year, month, day)
+//@   ensures implies(result != nil, result.work == makeup(year, month, day))
